@@ -12,8 +12,10 @@ import vf
 
 PROP = 'C08'
 CFG = {'quick': 'gen/MC_C08_q.cfg', 'thorough': 'gen/MC_C08_t.cfg'}
-ENCODERS = ['cbor', 'json', 'jsonpretty']          # encoders whose output Trace_C08 can judge
-TRANS = {'quick': ['gen/MC_C07cbor_q.cfg'], 'thorough': ['gen/MC_C07cbor_q.cfg', 'gen/MC_C07cbor_q4.cfg']}
+ENCODERS = ['cbor', 'msgpack', 'ubjson', 'bson', 'json', 'jsonpretty']          # encoders whose output Trace_C08 can judge
+TRANS = {'quick': ['gen/MC_C07cbor_q.cfg', 'gen/MC_C07msgpack_q.cfg', 'gen/MC_C07ubjson_q4.cfg', 'gen/MC_C07bson_tok_q.cfg'],
+         'thorough': ['gen/MC_C07cbor_q.cfg', 'gen/MC_C07cbor_q4.cfg', 'gen/MC_C07cbor_tok_q.cfg', 'gen/MC_C07msgpack_q.cfg', 'gen/MC_C07msgpack_tok_q.cfg',
+                      'gen/MC_C07ubjson_q4.cfg', 'gen/MC_C07ubjson_tok_q.cfg', 'gen/MC_C07bson_tok_q.cfg', 'gen/MC_C07bson_rep.cfg']}
 
 
 def setup():
